@@ -88,6 +88,10 @@ struct Inner {
     strategy: Strategy,
     rng: Rng,
     expected: usize,
+    /// tid -> canonical index, fixed when the run starts: threads sorted by (role, arrival). The
+    /// strategies decide in terms of canonical indices, so a (strategy, seed) pair yields the
+    /// same schedule whatever order the OS started the threads in (workers are interchangeable).
+    canon: Vec<usize>,
     threads: Vec<TState>,
     roles: Vec<usize>,
     pending: Vec<Option<Event>>,
@@ -171,6 +175,7 @@ impl Ctrl {
                 strategy,
                 rng,
                 expected: expected_threads,
+                canon: Vec::new(),
                 threads: Vec::new(),
                 roles: Vec::new(),
                 pending: Vec::new(),
@@ -256,9 +261,19 @@ impl Ctrl {
                 return;
             }
             g.started = true;
+            let mut order: Vec<usize> = (0..g.threads.len()).collect();
+            // finality (1), commit (2), then workers / kernel threads by role and arrival
+            order.sort_by_key(|&t| (match g.roles[t] { 1 => 0, 2 => 1, r => 2 + r }, t));
+            let mut canon = vec![0; g.threads.len()];
+            for (i, t) in order.iter().enumerate() {
+                canon[*t] = i;
+            }
+            g.canon = canon;
         }
+        let canon_of = |g: &Inner, t: usize| g.canon.get(t).copied().unwrap_or(t);
         let mut eligible: Vec<usize> =
             (0..g.threads.len()).filter(|&t| Self::eligible(g, t)).collect();
+        eligible.sort_by_key(|&t| canon_of(g, t));
         if eligible.is_empty() {
             // A lock-busy thread whose holder cannot move counts as eligible once more: the
             // holder must be Parked/Done, which is a genuine deadlock only if nothing else is.
@@ -326,7 +341,7 @@ impl Ctrl {
             Strategy::Pct { .. } => {
                 while g.change_points.first().is_some_and(|cp| *cp <= g.step_no) {
                     g.change_points.remove(0);
-                    if let Some(t) = g.last_tid {
+                    if let Some(t) = g.last_tid.map(|t| canon_of(g, t)) {
                         if t < g.priorities.len() {
                             g.priorities[t] = g.rng.next() & 0xFFFF;
                         }
@@ -334,14 +349,14 @@ impl Ctrl {
                 }
                 // Spinning threads must not starve the rest forever: occasionally demote.
                 if g.idle_run > 0 && g.idle_run % 50 == 0 {
-                    if let Some(t) = g.last_tid {
+                    if let Some(t) = g.last_tid.map(|t| canon_of(g, t)) {
                         if t < g.priorities.len() {
                             g.priorities[t] = g.rng.next() & 0xFFFF;
                         }
                     }
                 }
                 let prios = &g.priorities;
-                *eligible.iter().max_by_key(|&&t| prios.get(t).copied().unwrap_or(0)).unwrap()
+                *eligible.iter().max_by_key(|&&t| prios.get(canon_of(g, t)).copied().unwrap_or(0)).unwrap()
             }
             Strategy::Directed(directives) => {
                 let mut pick = None;
@@ -380,9 +395,7 @@ impl Ctrl {
                 if g.script_pos < script.len() {
                     let want = script[g.script_pos];
                     g.script_pos += 1;
-                    if eligible.contains(&want) {
-                        pick = Some(want);
-                    }
+                    pick = eligible.iter().copied().find(|&t| canon_of(g, t) == want);
                 }
                 pick.unwrap_or_else(|| {
                     // deterministic fallback: round-robin after the last thread
@@ -392,7 +405,8 @@ impl Ctrl {
             }
         } };
         g.last_run[pick] = g.step_no + 1;
-        g.choices.push(pick);
+        let canonical = canon_of(g, pick);
+        g.choices.push(canonical);
         g.last_tid = Some(pick);
         if let TState::Parked(slot) = g.threads[pick] {
             if let Some(entry) = g.slots.get_mut(&slot) {
